@@ -370,6 +370,33 @@ def c16(run):
                        distinct_nontrivial=st.get("obs", 0) - st.get("keys", 0))
 
 
+def c10(run):
+    binary = vlib.build()
+    quick = run.tier == "quick"
+    cfg = gen_cfg(run.tier, run.seed, 1 if quick else 3, ["DistSound", "EmitDist"])
+    scs = vlib.generate(run, "Distribute", cfg, "dist", fam="C10", cap=(1500 if quick else 6000), timeout=3000)
+    log("Distribute.tla: %s (plan, assignment, window) triples model-checked, %d emitted" % (run.cov["gen"][-1].get("enumerated"), len(scs)))
+    scs += all_scenarios(run, 200, 3000, only=("sel", "win", "agg", "fn"))
+    scs += vlib.gen_random(run, binary, "compose", 600 if quick else 12000, "C10")
+    chunks = max(1, min(vlib.NCPU // 2, len(scs) // 200))
+    traces = vlib.replay(run, binary, "dist", scs, "d", chunks=chunks)
+    st = session_validate(run, traces, lambda clause, fam: ["C10"] if clause == "Agree" else (["C13"] if clause == "ProcessDead" else []))
+    if st.get("obs", 0) == 0:
+        raise Infra("vacuous run")
+    return vlib.finish(run, "model_checking",
+                       rule=("Distribute.tla transcribes the optimizer's bottom-up traversal (innermost distributive aggregation pushed down with "
+                             "count->sum, other distributive chains wrapped in coalesce(remote), binary expressions and non-distributive "
+                             "aggregations central) over PromQLRef and TLC checks, for every assignment of the series (one ending early, one going "
+                             "stale, one with a gap, one starting late) to the engines incl. empty engines and groups split across engines, and "
+                             "every plan of a 21-plan basket, that the rewritten plan denotes the central result at every step. The triples are "
+                             "replayed through NewDistributedEngine over NewLocalEngine partitions (local queryable = union) against one engine "
+                             "over the union, with general and random scenarios under seeded random assignments to 1..4 engines; SessionTrace.tla "
+                             "(result independent of the partitioning) is validated by TLC. distinct_nontrivial = distributed executions compared."),
+                       assumptions=["the distributed engine's local queryable holds the union (as in the repository's own test), so fragments the rewrite leaves local are not misreported",
+                                    "comparator classes (1e-9)"],
+                       distinct_nontrivial=st.get("obs", 0) - st.get("keys", 0))
+
+
 def c07(run):
     binary = vlib.build()
     mc_volcano(run)
@@ -393,4 +420,4 @@ def c07(run):
                        distinct_nontrivial=st.get("obs", 0) - st.get("keys", 0))
 
 
-RECIPES = {"C01": c01, "C07": c07, "C09": c09, "C16": c16, "C18": c18, "C19": c19, "C02": c02, "C03": c03, "C04": c04, "C05": c05, "C06": c06}
+RECIPES = {"C01": c01, "C07": c07, "C09": c09, "C10": c10, "C16": c16, "C18": c18, "C19": c19, "C02": c02, "C03": c03, "C04": c04, "C05": c05, "C06": c06}
